@@ -16,7 +16,7 @@ PROPS = ('property', 'lazy.prop', 'cached_property', 'abstractproperty')
 
 
 def bound_class(m: Model, it: Interp, cls: ClassRef, base=object, only=None, consulted: set | None = None, extra_ns=None,
-                with_init=False, with_eq=False):
+                with_init=False, with_eq=False, exclude=()):
     """Returns a Python class (subclass of `base`) carrying one wrapper per function reachable through cls's MRO."""
     skip = set(SKIP)
     if with_init:
@@ -30,7 +30,7 @@ def bound_class(m: Model, it: Interp, cls: ClassRef, base=object, only=None, con
         except Exception:
             continue
         for n in ns:
-            if n in names or n in skip or (only is not None and n not in only):
+            if n in names or n in skip or n in exclude or (only is not None and n not in only):
                 continue
             try:
                 v = m.force(ns[n])
@@ -93,3 +93,25 @@ def bound_class(m: Model, it: Interp, cls: ClassRef, base=object, only=None, con
     C = type(f'Bound_{cls.qualname.replace(".", "_")}', bases, ns)
     holder['cls'] = C
     return C
+
+
+_classes = {}
+
+
+def make_self(m: Model, it: Interp, cls: ClassRef, consulted: set | None = None, base=object, extra_ns=None, **attrs):
+    """An instance whose *state* is given by the caller (`attrs`, which also shadow same-named methods / properties)
+    and whose every other attribute is the repository's own definition found through `cls`'s MRO, folded on demand.
+    So a fold written against today's method bodies keeps working when a few lines are extracted into a new private
+    helper method."""
+    key = (id(m), id(it), cls, frozenset(attrs), base if isinstance(base, tuple) else (base,), frozenset(extra_ns or ()))
+    C = _classes.get(key)
+    if C is None:
+        names = None
+        C = bound_class(m, it, cls, base=base, consulted=consulted, extra_ns=extra_ns, exclude=frozenset(attrs))
+        _classes[key] = C
+        if len(_classes) > 400:
+            _classes.pop(next(iter(_classes)))
+    o = C.__new__(C) if base is object else C()
+    for k, v in attrs.items():
+        setattr(o, k, v)
+    return o
